@@ -20,6 +20,11 @@ import (
 	"verif/mc/ev"
 )
 
+// Binary, if set, is the executable started as worker instead of this one (e.g. a -race build of the same program);
+// ExtraEnv is added to the workers' environment.
+var Binary string
+var ExtraEnv []string
+
 // IsWorker reports whether this process is a worker.
 func IsWorker() bool { return os.Getenv("VERIF_WORKER") != "" }
 
@@ -116,8 +121,13 @@ func Parent(r *ev.Run, n, chunk int, dataFile string, perSession time.Duration, 
 }
 
 func runWorker(r *ev.Run, lo, hi int, dataFile string, perSession time.Duration) (inflight int, crashed bool, stderr string, timedOut bool) {
-	cmd := exec.Command(os.Args[0], os.Args[1:]...)
+	bin := os.Args[0]
+	if Binary != "" {
+		bin = Binary
+	}
+	cmd := exec.Command(bin, os.Args[1:]...)
 	cmd.Env = append(os.Environ(), "VERIF_WORKER=1", "VERIF_WORKER_LO="+strconv.Itoa(lo), "VERIF_WORKER_HI="+strconv.Itoa(hi), "VERIF_WORKER_DATA="+dataFile, "GOMAXPROCS=2")
+	cmd.Env = append(cmd.Env, ExtraEnv...)
 	var errBuf bytes.Buffer
 	cmd.Stderr = &errBuf
 	stdout, err := cmd.StdoutPipe()
